@@ -1,12 +1,14 @@
 import NemoVerif.Drive.Common
 import NemoVerif.Models.Pipeline
+import NemoVerif.Models.PipelineCtx
 
 /-
   Driver for the `Pipeline` model (shared by C01 / C02 / C03).
   request  {"m": "C01.conv", "ver": "1.0"|"2.x",
             "cfg": {"in": [ids], "out": [ids], "dialog": b, "exc": b, "nostop_in": [ids], "nostop_out": [ids], "sc": b (shipped self-check rails appended as rail 100),
                     "flag_reset": b | null (null = what the translator found in guardrails.co)},
-            "turns": [{"user": s, "bot": s, "intent": "flow"|"free"|"act", "vin": [[id, v]..], "vout": [[id, v]..], "act_fault": b}]}
+            "turns": [{"user": s, "bot": s, "intent": "flow"|"free"|"act", "vin": [[id, v]..], "vout": [[id, v]..], "act_fault": b,
+                       "no_in": b, "no_out": b (1.0: the call's generation options switch the input / output rails off)}]}
            v = "a" | "r" | "f" | "e" | ["w", text]
   response {"turns": [{"steps": [...], "reply": {"texts": [...], "exc": null|"in"|"out", "raised": b}, "hist": {...}}]}
 -/
@@ -129,8 +131,11 @@ def handle (op : String) (j : Json) : Except String Json := do
     let ver ← (← j.getObjVal? "ver").getStr?
     let cfg ← cfgOfJson ver (← j.getObjVal? "cfg")
     let turns ← (← (← j.getObjVal? "turns").getArr?).toList.mapM turnOfJson
+    -- the rails enabled for each call (1.0 generation options of THAT call): "no_in" / "no_out" of the turn
+    let opts := (← (← j.getObjVal? "turns").getArr?).toList.map fun tj =>
+      ({ input := !getBoolD tj "no_in" false, output := !getBoolD tj "no_out" false } : PipelineCtx.CallOpts)
     if ver == "1.0" then
-      let rs := convV1 cfg initV1 turns
+      let rs := PipelineCtx.convV1P cfg initV1 (opts.zip turns)
       pure (Json.mkObj [("turns", Json.arr (rs.map fun (tr, rep, h) =>
         Json.mkObj [("steps", Json.arr (tr.map stepToJson).toArray), ("reply", replyToJson rep),
           ("hist", Json.mkObj [("skip", .bool h.skip), ("texts", Json.arr (h.texts.map Json.str).toArray)])]).toArray)])
